@@ -35,6 +35,14 @@ def NFrame.setCol (F : NFrame α) (n : String) (d : ColData α) : NFrame α :=
   if F.cols.any (·.1 == n) then { F with cols := F.cols.map fun p => if p.1 == n then (n, d) else p }
   else { F with cols := F.cols ++ [(n, d)] }
 
+/-- pandas' `Index.get_indexer` of the RangeIndex `0..n-1` in the packed index: position of the
+    ordinal among the packed labels, `-1` when absent -/
+def ordinalIndexer (index : List Label) (n : Nat) : List Int :=
+  (List.range n).map fun (i : Nat) =>
+    match index.findIdx? (· == Label.int (i : Int)) with
+    | some p => (p : Int)
+    | none => -1
+
 /-- `_set_filtered_flat_df` (core.py): the filtered/sorted flat table, indexed by row ordinals,
     is packed (`pack_sorted_df_into_struct`) and assigned to the frame with a RangeIndex;
     pandas aligns the packed series to `0..n-1` with `take(indexer, allow_fill=True)`:
@@ -42,12 +50,8 @@ def NFrame.setCol (F : NFrame α) (n : String) (d : ColData α) : NFrame α :=
 def NFrame.setFilteredFlatDf (F : NFrame α) (nest : String) (flat : FlatDF α) : R (NFrame α) := do
   let packed ← packSortedDf flat
   let n := F.index.length
-  let indexer : List Int := (List.range n).map fun (i : Nat) =>
-    match packed.index.findIdx? (· == Label.int (i : Int)) with
-    | some p => (p : Int)
-    | none => -1
   let col ← (if packed.index == (List.range n).map (fun (i : Nat) => Label.int (i : Int)) then pure packed.col
-             else NArr.take packed.col indexer true none)
+             else NArr.take packed.col (ordinalIndexer packed.index n) true none)
   pure (F.setCol nest (.nest col))
 
 def FlatDF.filterRows (d : FlatDF α) (keep : List Bool) : FlatDF α :=
